@@ -62,8 +62,9 @@ Tables ==
   CASE Mode = "path" ->
          {<<Svc(root, rs)>> : root \in PathRoots, rs \in RouteSeqs(Routes1(PathTemplates, PathMethods), 2)}
     [] Mode = "roots" ->
-         LET roots == IF Tier = "quick" THEN {"/", "/r", "/r/a", "/{w}", "/r/{w}", "/{w}/a", "/{w:[0-9]+}", "/{v:[a-z]+}"}
-                      ELSE {"/", "/r", "/r/a", "/{w}", "/r/{w}", "/{w}/a", "/{w:[0-9]+}", "/{v:[a-z]+}", "/r/{w:[0-9]+}"}
+         \* "/ra": a root that continues another one as a string but not as a path
+         LET roots == IF Tier = "quick" THEN {"/", "/r", "/r/a", "/ra", "/{w}", "/r/{w}", "/{w}/a", "/{w:[0-9]+}", "/{v:[a-z]+}"}
+                      ELSE {"/", "/r", "/r/a", "/ra", "/{w}", "/r/{w}", "/{w}/a", "/{w:[0-9]+}", "/{v:[a-z]+}", "/r/{w:[0-9]+}", "/r/"}
              rts == {<<R0("GET", "")>>, <<R0("GET", "/a")>>, <<R0("GET", "/{x}")>>}
          IN {<<Svc(p[1], a), Svc(p[2], b)>> : p \in {x \in roots \X roots : x[1] # x[2]}, a \in rts, b \in rts}
     [] Mode = "roots4" ->
@@ -78,6 +79,12 @@ Tables ==
          \* a literal and a variable route of one method with different Produces (ranking must not follow Accept)
          LET ps == {<<JSONM>>, <<XMLM>>, <<XMLM, JSONM>>} IN
          {<<Svc("/r", <<[R0("GET", "/a") EXCEPT !.prod = p1], [R0("GET", "/{x}") EXCEPT !.prod = p2]>>)>> : p1 \in ps, p2 \in ps}
+    [] Mode = "media2" ->
+         \* two routes of one method and template that only Consumes / Produces tell apart
+         LET cs == {<<>>, <<JSONM>>, <<XMLM>>}
+             ps == {<<JSONM>>, <<XMLM>>}
+             rts == {[R0("POST", "/a") EXCEPT !.cons = c, !.prod = p] : c \in cs, p \in ps}
+         IN {<<Svc("/r", <<p[1], p[2]>>)>> : p \in {x \in rts \X rts : x[1] # x[2]}}
     [] Mode = "order3" ->
          \* three routes of one service that can all match one URL (ranking beyond the best match)
          LET pool == SetToSeq(Routes1({"/a/b", "/a/{x}", "/{x}/b", "/{x}/{y}"}, {"GET", "PUT"})) IN
@@ -146,6 +153,8 @@ Requests(T) ==
   IF Mode = "media"
   THEN {Rq("GET", p, "", acc, 0, "", <<>>) : p \in {"/r/a", "/r/b"},
           acc \in {"", JSONM, XMLM, XMLM \o ", " \o JSONM, JSONM \o ";q=0.5, " \o XMLM, "*/*", "text/html"}}
+  ELSE IF Mode = "media2"
+  THEN {Rq("POST", "/r/a", ct, acc, 3, "3", <<>>) : ct \in {"", JSONM, XMLM}, acc \in {"", JSONM, XMLM, "text/html"}}
   ELSE IF Mode = "headers"
   THEN {Rq(m, "/r/a", ct, acc, b[1], b[2], k) :
           m \in {"GET", "POST", "PUT"},
